@@ -111,6 +111,15 @@ def parse_op(tok):
     raise ValueError(tok)
 
 
+def pid(b):
+    """packet id from its payload; the empty payload (a legal zero-length datagram) is id 0"""
+    return int(b) if len(b) else 0
+
+
+def payload(i):
+    return b"" if i == 0 else str(i).encode("ascii")
+
+
 def show_pkts(l):
     return ",".join("%d@%d" % p for p in l)
 
@@ -133,7 +142,11 @@ class CHECK(core.Check):
     RULE = ("call sequences on a real UdpStack (over udping.SocketUdpNb on a fake socket: 'udp'; over a handler "
             "double: 'udph') or GramStack ('gram'): transmit/message of 1..8 packets over 1..4 destinations, "
             "serviceTxMsgs/serviceTxPkts/serviceAllTx/serviceTxPktsOnce with a scripted answer (ok or one of the 9 "
-            "transient errnos; ~8% of cases also a non-transient errno = malformed stream) for each send, close/reopen; "
+            "transient errnos; ~8% of cases also a non-transient errno = malformed stream) for each send, close/reopen; ~40% "
+            "of cases hand the stack caller-supplied txPkts/txMsgs/rxPkts/rxMsgs deques, the producer appends to ITS deque and "
+            "everything is observed through the caller's references (identity checked after every call); ~25% of cases "
+            "contain an empty-payload packet (zero-length datagram, send returns 0) with a packet for the same destination "
+            "behind it; "
             "bounded-exhaustive: every queue of <= 4 (quick) / <= 6 (thorough) packets over <= 3 destinations (one "
             "representative per renaming) x every ok/fail pattern of the first pass x every pattern of length <= 3 of "
             "the second pass, then a clean pass; every fifth random case exercises the receive side (stack 'rx': scripted "
@@ -193,8 +206,12 @@ class CHECK(core.Check):
                         for pat2 in itertools.product(["k", "110"], repeat=m):
                             if m and pat2[-1] == "k":
                                 continue      # same as the shorter script
-                            yield {"stack": next(kinds),
+                            kd = next(kinds)
+                            yield {"stack": kd, "share": (n + m + len(pat1)) % 2 == 1,
                                    "ops": tx + ["P" + ",".join(pat1), "P" + ",".join(pat2), "P"]}
+                            if n <= 3 and m == 0:     # the same queue with an empty-payload packet at its head
+                                yield {"stack": kd, "share": n % 2 == 0,
+                                       "ops": ["t0@%d" % dsts[0]] + tx + ["P" + ",".join(("k",) + pat1), "P", "P"]}
 
     def _script(self, rng, n, pfail, fatal):
         out = []
@@ -229,9 +246,16 @@ class CHECK(core.Check):
                 ops.append(rng.choice(["c", "o", "c"]))
         for _ in range(rng.randrange(1, 4)):
             ops.append(self._service(rng, kind, queued, pfail, fatal, once))
+        if rng.random() < 0.25:
+            # an empty-payload packet (a legal zero-length datagram, e.g. a keep-alive) somewhere in the queue, with a
+            # packet for the same destination behind it
+            d = rng.randrange(ndst)
+            pos = rng.randrange(0, len(ops) + 1)
+            empty = ("m" if kind != "gram" and rng.random() < 0.3 else "t") + "0@%d" % d
+            ops[pos:pos] = [empty, "t%d@%d" % (npk + 1, d)]
         if rng.random() < 0.7:
             ops += ["o", "A" if kind != "gram" else "P"]
-        return {"stack": kind, "ops": ops}
+        return {"stack": kind, "ops": ops, "share": rng.random() < 0.4}
 
     def _service(self, rng, kind, n, pfail, fatal, once):
         r = rng.random()
@@ -272,7 +296,7 @@ class CHECK(core.Check):
             else:
                 ops.append(rng.choice(["c", "o"]))
         ops += ["o", "V", "K"]
-        return {"stack": "rx", "ops": ops}
+        return {"stack": "rx", "ops": ops, "share": rng.random() < 0.4}
 
     def generate(self, rng, n, tier):
         for i in range(n):
@@ -294,15 +318,23 @@ class CHECK(core.Check):
             return self._impl_rx(case, wire)
         saved = udping.socket
         try:
+            from collections import deque
+            share = bool(case.get("share"))
+            # caller-supplied queues (documented constructor arguments): the producer keeps its own references
+            boxes = dict(txPkts=deque(), txMsgs=deque(), rxPkts=deque(), rxMsgs=deque()) if share else {}
             if kind == "udp":
                 udping.socket = SockShim(real_socket, wire)
-                stack = stacking.UdpStack(ha=("127.0.0.1", 40001))
+                stack = stacking.UdpStack(ha=("127.0.0.1", 40001), **boxes)
             elif kind == "udph":
-                stack = stacking.UdpStack(handler=HandlerDouble(wire), ha=("127.0.0.1", 40002))
+                stack = stacking.UdpStack(handler=HandlerDouble(wire), ha=("127.0.0.1", 40002), **boxes)
             elif kind == "gram":
-                stack = stacking.GramStack(handler=HandlerDouble(wire), ha=("127.0.0.1", 40002))
+                stack = stacking.GramStack(handler=HandlerDouble(wire), ha=("127.0.0.1", 40002), **boxes)
             else:
                 return ["bad-op"]
+            # everything is observed through references taken NOW (the caller's own, or a saved alias)
+            outbox, msgbox = stack.txPkts, stack.txMsgs
+            if share and (outbox is not boxes["txPkts"] or msgbox is not boxes["txMsgs"]):
+                return ["HARNESS-EXC the stack does not use the queues it was given"]
             remotes = {}
             out = []
             for tok in case["ops"]:
@@ -315,7 +347,12 @@ class CHECK(core.Check):
                 exc = None
                 try:
                     if k == "t":
-                        stack.transmit(packeting.Packet(stack=stack, packed=str(arg[0]).encode("ascii")), ha_of(arg[1]))
+                        pk = packeting.Packet(stack=stack, packed=payload(arg[0]))
+                        if share and arg[0] % 2:          # the producer appends to ITS queue
+                            pk.pack()
+                            outbox.append((pk, ha_of(arg[1])))
+                        else:
+                            stack.transmit(pk, ha_of(arg[1]))
                     elif k == "m":
                         if kind == "gram":
                             return ["bad-op"]     # the abstract GramStack has no usable message path
@@ -323,7 +360,11 @@ class CHECK(core.Check):
                         if d not in remotes:
                             remotes[d] = devicing.IpRemoteDevice(stack, ha=ha_of(d))
                             stack.addRemote(remotes[d])
-                        stack.message(str(arg[0]), remotes[d])
+                        text = "" if arg[0] == 0 else str(arg[0])
+                        if share and arg[0] % 2:
+                            msgbox.append((text, remotes[d]))
+                        else:
+                            stack.message(text, remotes[d])
                     elif k == "M":
                         stack.serviceTxMsgs()
                     elif k == "P":
@@ -343,18 +384,19 @@ class CHECK(core.Check):
                 evs = []
                 for rec in wire.log[mark:]:
                     if rec[0] == "s":
-                        evs.append("s%d@%d" % (int(rec[1]), dst_of(rec[2])))
+                        evs.append("s%d@%d" % (pid(rec[1]), dst_of(rec[2])))
                     else:
-                        evs.append("f%d@%d!%d" % (int(rec[1]), dst_of(rec[2]), rec[3]))
+                        evs.append("f%d@%d!%d" % (pid(rec[1]), dst_of(rec[2]), rec[3]))
                 if exc:
                     evs.append(exc)
-                q = [(int(p.packed), dst_of(ha)) for p, ha in stack.txPkts]
+                q = [(pid(p.packed), dst_of(ha)) for p, ha in outbox]
                 if kind == "gram":
                     m = []
                 else:
-                    m = [(int(msg), dst_of(r.ha)) for msg, r in stack.txMsgs]
-                out.append("%s ; Q=%s M=%s o=%d" % (" ".join(evs) or "-", show_pkts(q), show_pkts(m),
-                                                    1 if stack.handler.opened else 0))
+                    m = [(pid(msg), dst_of(r.ha)) for msg, r in msgbox]
+                rebound = "" if (stack.txPkts is outbox and stack.txMsgs is msgbox) else " !rebound"
+                out.append("%s ; Q=%s M=%s o=%d%s" % (" ".join(evs) or "-", show_pkts(q), show_pkts(m),
+                                                      1 if stack.handler.opened else 0, rebound))
             return out or ["-"]
         finally:
             udping.socket = saved
@@ -367,7 +409,12 @@ class CHECK(core.Check):
         saved = udping.socket
         udping.socket = SockShim(real_socket, wire)
         try:
-            stack = stacking.UdpStack(ha=("127.0.0.1", 40001))
+            from collections import deque
+            boxes = dict(rxPkts=deque(), rxMsgs=deque(), txPkts=deque(), txMsgs=deque()) if case.get("share") else {}
+            stack = stacking.UdpStack(ha=("127.0.0.1", 40001), **boxes)
+            inbox, rmsgs = stack.rxPkts, stack.rxMsgs       # the consumer's own references
+            if boxes and (inbox is not boxes["rxPkts"] or rmsgs is not boxes["rxMsgs"]):
+                return ["HARNESS-EXC the stack does not use the queues it was given"]
             out = []
             for tok in case["ops"]:
                 k, arg = tok[0], tok[1:]
@@ -392,11 +439,12 @@ class CHECK(core.Check):
                     err = "x%s" % (ex.args[0] if ex.args else "?")
                 except Exception as ex:
                     err = "x" + type(ex).__name__
-                pk = [(int(p.packed), dst_of(ha)) for p, ha in stack.rxPkts]
+                pk = [(int(p.packed), dst_of(ha)) for p, ha in inbox]
                 # every message carries its text only; the source is recovered from the packets popped so far
-                msgs = list(stack.rxMsgs)
-                out.append("%s ; P=%s G=%s T=%s o=%d" % (err, show_pkts(pk), ",".join(msgs_src(msgs, wire.taken)),
-                                                         show_pkts(wire.taken), 1 if stack.handler.opened else 0))
+                msgs = list(rmsgs)
+                rebound = "" if (stack.rxPkts is inbox and stack.rxMsgs is rmsgs) else " !rebound"
+                out.append("%s ; P=%s G=%s T=%s o=%d%s" % (err, show_pkts(pk), ",".join(msgs_src(msgs, wire.taken)),
+                                                           show_pkts(wire.taken), 1 if stack.handler.opened else 0, rebound))
             return out or ["-"]
         finally:
             udping.socket = saved
@@ -423,6 +471,10 @@ class CHECK(core.Check):
     def oracle(self, case, out):
         if out and (out[0] == "bad-op" or out[0].startswith("HARNESS-EXC")):
             return None if out[0] == "bad-op" else out[0]
+        for tok, line in zip(case["ops"], out):
+            if line.endswith("!rebound"):
+                return ("after call %s the stack no longer uses the queue object it had (a caller-supplied deque or a "
+                        "saved reference is orphaned)" % tok[:14])
         if case["stack"] == "rx":
             return self._oracle_rx(case, out)
         if not self._transient_only(case):
@@ -548,17 +600,17 @@ class CHECK(core.Check):
         ops = case["ops"]
         cands = []
         for i in range(len(ops)):
-            cands.append({"stack": case["stack"], "ops": ops[:i] + ops[i + 1:]})
+            cands.append(dict(case, ops=ops[:i] + ops[i + 1:]))
         for i, t in enumerate(ops):
             if t[0] in "POA" and "," in t:
                 parts = t[1:].split(",")
                 for j in range(len(parts)):
-                    cands.append({"stack": case["stack"], "ops": ops[:i] + [t[0] + ",".join(parts[:j] + parts[j + 1:])] + ops[i + 1:]})
+                    cands.append(dict(case, ops=ops[:i] + [t[0] + ",".join(parts[:j] + parts[j + 1:])] + ops[i + 1:]))
             if t[0] in "POA" and t[1:]:
                 parts = t[1:].split(",")
                 for j in range(len(parts)):
                     if parts[j] != "k":
-                        cands.append({"stack": case["stack"], "ops": ops[:i] + [t[0] + ",".join(parts[:j] + ["k"] + parts[j + 1:])] + ops[i + 1:]})
+                        cands.append(dict(case, ops=ops[:i] + [t[0] + ",".join(parts[:j] + ["k"] + parts[j + 1:])] + ops[i + 1:]))
         cands = [c for c in cands if c["ops"]]
         if not cands:
             return
